@@ -44,10 +44,12 @@ class Models:
         R(r"core::mem::swap", self.m_swap)
         R(r"core::mem::replace", self.m_replace)
         R(r"core::cmp::(min|max)::<|core::cmp::Ord>::(min|max)$", self.m_minmax)
+        R(r"core::cmp::impls::<impl core::cmp::Ord for (u|i)\w+>::cmp$", self.m_cmp)
         # subtle
         R(r"<subtle::Choice as core::convert::From<u8>>::from$", self.m_choice_from)
         R(r"subtle::Choice::unwrap_u8$", self.m_choice_unwrap)
-        R(r"<(bool as core::convert::From<subtle::Choice>|subtle::Choice as core::convert::Into<bool>)>::(from|into)$", self.m_choice_unwrap)
+        R(r"<bool as core::convert::From<subtle::Choice>>::from$|<subtle::Choice as core::convert::Into<bool>>::into$", self.m_choice_unwrap)
+        R(r"subtle::ConditionallyNegatable>::conditional_negate$", self.m_cond_negate)
         R(r"<subtle::Choice as core::ops::Not>::not$", self.m_choice_not)
         R(r"<subtle::Choice as core::ops::(BitAnd|BitOr|BitXor)>::(bitand|bitor|bitxor)$", lambda ip, fv, st, d, t, n, a, dty: ("st", (I(0, 1),)))
         R(r"<(u|i)\d+ as subtle::ConstantTimeEq>::ct_eq$|<\[.*\] as subtle::ConstantTimeEq>::ct_eq$|subtle::ConstantTimeEq>::ct_(eq|ne)$|subtle::ConstantTime(Greater|Less)>::ct_(gt|lt)$", lambda ip, fv, st, d, t, n, a, dty: ("st", (I(0, 1),)))
@@ -78,7 +80,9 @@ class Models:
     def call(self, ip, fv, st, depth, t, n, args, dty):
         for rx, fn in self.table:
             if rx.search(n):
-                return fn(ip, fv, st, depth, t, n, args, dty)
+                r = fn(ip, fv, st, depth, t, n, args, dty)
+                if r is not NotImplemented:
+                    return r
         return NotImplemented
 
     # ------------------------------------------------------------------ integers
@@ -123,6 +127,20 @@ class Models:
             hi = sum(e[2] << (8 * i) for i, e in enumerate(es))
             return I(lo, hi)
         return top_of(ty)
+
+    def m_cmp(self, ip, fv, st, depth, t, n, a, dty):
+        x, y = ip.deconst(ip.deref_val(st, a[0])), ip.deconst(ip.deref_val(st, a[1]))
+        outs = set()
+        if x[0] == "i" and y[0] == "i":
+            if x[1] < y[2]:
+                outs.add(-1)
+            if x[2] > y[1]:
+                outs.add(1)
+            if not (x[2] < y[1] or y[2] < x[1]):
+                outs.add(0)
+        else:
+            outs = {-1, 0, 1}
+        return ("ord", tuple(sorted(outs)))
 
     def m_minmax(self, ip, fv, st, depth, t, n, a, dty):
         x, y = ip.deconst(a[0]), ip.deconst(a[1])
@@ -375,10 +393,18 @@ class Models:
                 return ip.call_local(f, list(args), st, len(st.frames) - 1)
         return TOP
 
+    def as_it(self, ip, st, v):
+        """normalise iterator-like values: Range structs, references to iterators"""
+        if v[0] == "st" and len(v[1]) == 2 and v[1][0][0] == "i" and v[1][1][0] == "i":
+            return ("it", "range", v[1][0], v[1][1], 0)
+        return v
+
     def m_rev(self, ip, fv, st, depth, t, n, a, dty):
+        a = [self.as_it(ip, st, a[0])] + list(a[1:])
         return ("it", "rev", a[0]) if a[0][0] == "it" else TOP
 
     def m_zip(self, ip, fv, st, depth, t, n, a, dty):
+        a = [self.as_it(ip, st, a[0])] + list(a[1:])
         b = a[1]
         if b[0] != "it":
             b = self.m_into_iter(ip, fv, st, depth, t, n, [b], dty)
@@ -387,13 +413,16 @@ class Models:
         return TOP
 
     def m_enumerate(self, ip, fv, st, depth, t, n, a, dty):
+        a = [self.as_it(ip, st, a[0])] + list(a[1:])
         return ("it", "enum", a[0], I(0)) if a[0][0] == "it" else TOP
 
     def m_skip(self, ip, fv, st, depth, t, n, a, dty):
+        a = [self.as_it(ip, st, a[0])] + list(a[1:])
         k = ip.deconst(a[1])
         return ("it", "skip", a[0], k) if a[0][0] == "it" and k[0] == "i" else TOP
 
     def m_take(self, ip, fv, st, depth, t, n, a, dty):
+        a = [self.as_it(ip, st, a[0])] + list(a[1:])
         it, k = a[0], ip.deconst(a[1])
         if it[0] == "it" and it[1] == "range" and k[0] == "i":
             cur, end = it[2], it[3]
@@ -401,16 +430,20 @@ class Models:
         return TOP
 
     def m_step_by(self, ip, fv, st, depth, t, n, a, dty):
+        a = [self.as_it(ip, st, a[0])] + list(a[1:])
         k = ip.deconst(a[1])
         return ("it", "stepby", a[0], k, 1) if a[0][0] == "it" and k[0] == "i" else TOP
 
     def m_filter(self, ip, fv, st, depth, t, n, a, dty):
+        a = [self.as_it(ip, st, a[0])] + list(a[1:])
         return ("it", "filter", a[0]) if a[0][0] == "it" else TOP
 
     def m_map(self, ip, fv, st, depth, t, n, a, dty):
+        a = [self.as_it(ip, st, a[0])] + list(a[1:])
         return ("it", "map", a[0], a[1]) if a[0][0] == "it" else TOP
 
     def m_cloned(self, ip, fv, st, depth, t, n, a, dty):
+        a = [self.as_it(ip, st, a[0])] + list(a[1:])
         return ("it", "cloned", a[0]) if a[0][0] == "it" else TOP
 
     def m_collect_vec(self, ip, fv, st, depth, t, n, a, dty):
@@ -666,6 +699,29 @@ class Models:
             st.frames[y[1]][y[2]] = ip.write_path(st.frames[y[1]].get(y[2], TOP), y[3], j)
             return ("st", ())
         return NotImplemented
+
+    def m_cond_negate(self, ip, fv, st, depth, t, n, a, dty):
+        """default method of subtle: *self = select(self, -&*self, choice); uses the local `Neg for &T` impl"""
+        d = a[0]
+        if d[0] != "ref":
+            return NotImplemented
+        env = dict(st.frames[depth].get("__ty", ()))
+        from absint import subst_ty
+        gargs = [subst_ty(x, env) if isinstance(x, str) else x for x in (t.get("gargs") or [])]
+        self_ty = gargs[0] if gargs else None
+        g = ip.find_impl("core::ops::Neg", "neg", "&" + self_ty) if self_ty else None
+        if g is None and self_ty:
+            g = ip.find_impl("core::ops::Neg", "neg", self_ty)
+        cur = ip.deref_val(st, d)
+        c = self.choice_val(ip, st, a[1])
+        if g is None:
+            ip.unmodelled["conditional_negate<%s>" % self_ty] = ip.unmodelled.get("conditional_negate<%s>" % self_ty, 0) + 1
+            ip.havoc(st, d)
+            return ("st", ())
+        neg = ip.call_local(g, [d], st, depth)
+        new = cur if c[1] == c[2] == 0 else (neg if c[1] == c[2] == 1 else join(cur, neg))
+        st.frames[d[1]][d[2]] = ip.write_path(st.frames[d[1]].get(d[2], TOP), d[3], new)
+        return ("st", ())
 
     def m_arr_select(self, ip, fv, st, depth, t, n, a, dty):
         x, y = ip.deconst(ip.deref_val(st, a[0])), ip.deconst(ip.deref_val(st, a[1]))
